@@ -9,6 +9,7 @@ import random
 
 import numpy
 
+from .probes import GenBase
 from . import common, distgen
 from .common import Violation, col
 from .distgen import q, ql, qm, goal, dy, pos
@@ -19,16 +20,17 @@ Import ListNotations.
 """
 
 
-class UnitRng:
-    """rng.normal(size=(d, r)) returns the k-th unit vector: generate_momentum then returns column k of the factor."""
+class UnitRng(GenBase):
+    """a request for standard normal variates of shape (d, r) returns the k-th unit vector: generate_momentum then
+    returns column k of the factor (whichever generator method the mass matrix uses)."""
 
     def __init__(self, k):
         self.k = k
         self.requests = []
 
-    def normal(self, loc=0.0, scale=1.0, size=None):
-        self.requests.append(size)
-        z = numpy.zeros(size)
+    def _z(self, shape):
+        self.requests.append(shape)
+        z = numpy.zeros(shape)
         z[self.k, 0] = 1.0
         return z
 
@@ -166,8 +168,8 @@ def scaling_case(rnd):
     z = numpy.array([[dy(rnd, -2, 2)] for _ in range(d)])
     q0 = [dy(rnd) for _ in range(d)]
 
-    class Z:
-        def normal(self, loc=0.0, scale=1.0, size=None):
+    class Z(GenBase):
+        def _z(self, shape):
             return z.copy()
     steps = rnd.randint(1, 5)
     res = []
